@@ -284,6 +284,34 @@ def main(pid, tier, seed, replay_path=None):
                 if not srv.alive():
                     fails.append(("/updateCache kills the server", qs))
                     srv = l3.Server(binary, cache, stub.port)
+        # names spread over SEVERAL fields (the parameter repeated, or two of its aliases): the names of all fields count -- a known
+        # name in any of them is a known name (the order in which the handler meets the fields is unspecified, so only the SET
+        # of names echoed is compared)
+        multi = [[("names", "foo"), ("names", "nodes")], [("names", "nodes"), ("names", "foo")], [("names", "foo"), ("cache", "nodes")],
+                 [("cache", "foo"), ("names", "nodes")], [("names", ""), ("names", "lines")], [("names", "lines"), ("cache_names", "paths")],
+                 [("name", "agencies"), ("caches", "foo"), ("cache_name", "services")]]
+        for fields in multi:
+            qs = "/updateCache?" + "&".join("%s=%s" % f for f in fields)
+            st, hd, body = srv.get(qs, timeout=60)
+            l3_evals += 1
+            update_evals += 1
+            try:
+                j = json.loads(body.decode()) if st is not None else None
+            except Exception:
+                j = None
+            sent = [n for (_, v) in fields for n in v.split(",")]
+            if st is None or j is None:
+                fails.append(("%s got no well-formed answer" % qs, qs))
+            elif j.get("status") != "success":
+                fails.append(("%s answered status %r (a known cache name was given in one of the fields)" % (qs, j.get("status")), qs))
+            else:
+                named = [x for x in str(j.get("cache_names", "")).split(",") if x]
+                if sorted(x for x in named if x in known) != sorted(n for n in sent if n in known) or any(x not in sent for x in named):
+                    fails.append(("%s: the success object names %r, sent %r" % (qs, j.get("cache_names"), sent), qs))
+            nontriv.add(qs)
+            if not srv.alive():
+                fails.append(("/updateCache kills the server", qs))
+                srv = l3.Server(binary, cache, stub.port)
         # an unknown extra parameter must not redirect the reload (e.g. be taken for the custom cache path): after a full refresh
         # carrying one, a valid request is answered as before
         # (a server started for this probe: the requests above may have left this one without data if an extra parameter
